@@ -72,6 +72,37 @@ def same_txn(a, b):
             and a['source'] == b['source'] and (a['field'] or None) == (b['field'] or None))
 
 
+def bad_date(rng, lay, good):
+    """A date cell that does NOT match the source's date format.  Candidates are near misses derived from the correct
+    cell (wrong digit count, wrong separator, out-of-range field, trailing junk) and plain garbage; which of them do not
+    match is decided by the definition of the format codes (datetime.strptime), not by tally."""
+    import datetime
+    import re as _re
+    fmt = lay['date_format']
+    cands = ['notadate', '13/45/2025', '2025-02-30', '31.02.2025', '00/00/0000', good + 'x', 'x' + good, good[:-1], good[1:],
+             good.replace('/', '-') if '/' in good else good.replace('-', '/') if '-' in good else good.replace('.', '/'),
+             _re.sub(r'(\d{4})', lambda m: m.group(1)[2:], good, count=1),      # 2-digit year where 4 are required
+             _re.sub(r'(\d{4})', lambda m: '0' + m.group(1), good, count=1),    # 5-digit year
+             _re.sub(r'(\d+)', lambda m: '00' + m.group(1), good, count=1),     # over-long first field
+             _re.sub(r'(\d+)', lambda m: '+' + m.group(1), good, count=1),      # signed field
+             _re.sub(r'(\d+)', lambda m: m.group(1) + '.0', good, count=1),
+             _re.sub(r'(\d+)', '0', good, count=1), _re.sub(r'(\d+)', '99', good, count=1), good.replace('20', '2O', 1),
+             good + good[-3:], good.upper() + '?' if any(ch.isalpha() for ch in good) else good + '/']
+    if ' ' in fmt:
+        cands += ['99 Foo 2025', good.replace(' ', '  ', 1), good.replace(' ', '', 1)]
+    rng.shuffle(cands)
+    for cand in cands:
+        if not cand.strip() or (' ' not in fmt and ' ' in cand):
+            continue
+        if lay['delimiter'] == 'regex' and (' ' in cand or not cand.strip()):
+            continue
+        try:
+            datetime.datetime.strptime(cand.strip(), fmt)
+        except ValueError:
+            return cand
+    return 'notadate'
+
+
 def damage(rng, lay, row, cls):
     """A physical line replacing the row's record, damaged in exactly one way."""
     cells = st.row_cells(lay, row)
@@ -87,7 +118,7 @@ def damage(rng, lay, row, cls):
         return st.join_cells(lay, cells[:keep])
     idx = {c: i for i, c in enumerate(cols)}
     if cls == 'bad-date':
-        cells[idx['date']] = rng.choice(['notadate', '13/45/2025', '2025-02-30', '31.02.2025', '99 Foo 2025', '00/00/0000'])
+        cells[idx['date']] = bad_date(rng, lay, cells[idx['date']])
     elif cls == 'empty-description':
         cells[idx['description']] = rng.choice(['', '   '])
     elif cls == 'bad-amount':
